@@ -111,7 +111,7 @@ fn plan_str(p: &Plan) -> String {
 }
 fn sched_str(s: &Sched) -> String {
     format!(
-        "prio={};batch={};spurious={};caller={};grace={};drop={};mt={};hap={};ctx={};poll={}",
+        "prio={};batch={};spurious={};caller={};grace={};drop={};mt={};hap={};ctx={};poll={};cancel={}",
         s.prio.iter().map(|x| x.to_string()).collect::<Vec<_>>().join("."),
         s.batch,
         s.spurious as u8,
@@ -121,7 +121,8 @@ fn sched_str(s: &Sched) -> String {
         s.mt as u8,
         s.hold_after_panic as u8,
         s.create_ctx,
-        s.poll_ctx
+        s.poll_ctx,
+        s.cancel_at
     )
 }
 fn parse_plan(s: &str) -> Plan {
@@ -146,6 +147,7 @@ fn parse_sched(s: &str) -> Sched {
             "hap" => sc.hold_after_panic = v == "1",
             "ctx" => sc.create_ctx = v.parse().unwrap_or(0),
             "poll" => sc.poll_ctx = v.parse().unwrap_or(0),
+            "cancel" => sc.cancel_at = v.parse().unwrap_or(0),
             _ => {}
         }
     }
@@ -856,6 +858,30 @@ impl<'a> Engine<'a> {
                             }
                         } else {
                             self.exec(cx, &p2, &default, nt);
+                        }
+                        // cancellation (C10): the macro's future is dropped at every quiescent pending point of a fully gated
+                        // run in turn; whatever it owned has to be dropped with it, what ran before is a prefix of the model
+                        if prop == "C10" && kind.is_async() && pi < (if thorough { 4 } else { 2 }) {
+                            let gates = choose_gates(c, &exp, GateMode::All, &mut rng);
+                            let ngates: usize = gates.iter().map(|g| g.1.len()).sum();
+                            let (ps, _) = prios(&gates, 1, &mut rng);
+                            let gp = with_gates(&p2, &gates);
+                            let pr = ps.into_iter().next().unwrap_or_default();
+                            let maxc = ngates.min(if thorough { 12 } else { 5 });
+                            for at in 1..=maxc {
+                                let s = Sched { prio: pr.clone(), batch: 1, cancel_at: at, ..default.clone() };
+                                if let Some((rec, _, _)) = self.exec(cx, &gp, &s, nt) {
+                                    if rec.outcome == Outcome::Cancelled {
+                                        self.stats.bump("cancellation_runs_future_dropped_at_a_pending_point", 1);
+                                        if rec.max_held >= 2 || at >= 2 {
+                                            self.stats.bump("cancellation_runs_with_values_in_flight", 1);
+                                        }
+                                    } else {
+                                        // the future completed before the n-th decision point: later points do not exist either
+                                        break;
+                                    }
+                                }
+                            }
                         }
                         // handlers (and joiners) under the other polling contexts: the all-success plan and one more
                         if matches!(prop.as_str(), "C13" | "C16") && kind.is_async() && pi < 2 && !cfg!(miri) {
